@@ -41,14 +41,16 @@ def build_fnmod(cid, rng):
         n = rng.randint(2, 4)
         same = rng.random() < 0.6
         tmpl = None
+        # declaration order is unrelated to any order of the names (alphabetical, by length, ...)
+        mnames = rng.sample(["zz_last", "aa_first", "mm_mid", "bb", "yy_longer_name", "m10", "m9", "r#loop", "Upper", "_under"], n)
         for i in range(n):
             if same and tmpl is not None:
                 f = copy.deepcopy(tmpl)
-                f.name = "m%d" % i
+                f.name = mnames[i]
             else:
                 prof = dict(PROFILE)
                 prof["deps_kinds"] = ["generic_ref", "impl_ref"]
-                f = random_fn(rng, "m%d" % i, prof, helpers, in_module=True)
+                f = random_fn(rng, mnames[i], prof, helpers, in_module=True)
                 tmpl = copy.deepcopy(f)
             fns.append(f)
     for f in fns:
